@@ -2,6 +2,7 @@ package c10
 
 import (
 	"fmt"
+	"io/fs"
 	"strings"
 	"time"
 
@@ -64,18 +65,46 @@ func (s *seat) setRev(rev, mt int) (string, error) {
 	return what, nil
 }
 
+// denyFiles makes the page ("page") or every .vuego file ("all") of p on fsys fail to open
+// and to stat with err; err == nil makes them accessible again.
+func denyFiles(fsys interface{ FailOpen(string, error) }, p cat.Program, deny string, err error) {
+	for f := range p.Files {
+		if strings.HasSuffix(f, ".vuego") && (deny == "all" || (deny == "page" && f == "page.vuego")) {
+			fsys.FailOpen(f, err)
+		}
+	}
+}
+
+// setDeny switches the accessibility of the seat's files.
+func (s *seat) setDeny(deny string) (string, error) {
+	if deny == s.deny {
+		return "", nil
+	}
+	if deny != "" && deny != "page" && deny != "all" {
+		return "", fmt.Errorf("unknown deny %q (malformed case)", deny)
+	}
+	if s.fs == nil {
+		return "", fmt.Errorf("unreadable files are only defined for programs on an engine of their own (malformed case)")
+	}
+	denyFiles(s.fs, s.base, "all", nil)
+	denyFiles(s.fs, s.base, deny, fs.ErrPermission)
+	what := fmt.Sprintf("template files unreadable (permission error): %q -> %q", s.deny, deny)
+	s.deny = deny
+	return what, nil
+}
+
 // editAllowed rejects the region that is not asserted: an mtime that an earlier write of the
 // same program used for another revision (step 0 of every program starts from revision 0 at +0).
 func editAllowed(c Case, i int, mtimes map[string]map[int]int) error {
 	st := c.Steps[i]
-	if st.Rev == 0 && st.Mt == 0 && mtimes[st.Prog] == nil {
+	if st.Rev == 0 && st.Mt == 0 && st.Deny == "" && mtimes[st.Prog] == nil {
 		mtimes[st.Prog] = map[int]int{0: 0}
 		return nil
 	}
 	if st.Rev < 0 || st.Rev > 9 || st.Mt < -500 || st.Mt > 500 {
 		return fmt.Errorf("step %d: revision / mtime out of range (malformed case)", i+1)
 	}
-	if (c.Shared || c.Join || c.Mode == "probe") && (st.Rev != 0 || st.Mt != 0) {
+	if (c.Shared || c.Join || c.Mode == "probe") && (st.Rev != 0 || st.Mt != 0 || st.Deny != "") {
 		return fmt.Errorf("step %d: file edits are not defined for shared / joined / probe cases (malformed case)", i+1)
 	}
 	if mtimes[st.Prog] == nil {
@@ -96,12 +125,27 @@ func usesTemplateCache(entry string) bool {
 func editClasses(c Case, i int, set map[string]bool) {
 	st := c.Steps[i]
 	prevRev, prevMt, maxMt := 0, 0, 0
+	prevDeny, rendered := "", false
 	for _, o := range c.Steps[:i] {
 		if o.Prog == st.Prog {
+			prevDeny, rendered = o.Deny, true
 			prevRev, prevMt = o.Rev, o.Mt
 			if o.Mt > maxMt {
 				maxMt = o.Mt
 			}
+		}
+	}
+	if st.Deny != prevDeny {
+		switch {
+		case st.Deny == "":
+			set["edit:files-readable-again"] = true
+		case rendered:
+			set["edit:"+st.Deny+"-unreadable-after-render"] = true
+			if usesTemplateCache(st.Entry) {
+				set["edit:unreadable-then-cached-entry"] = true
+			}
+		default:
+			set["edit:"+st.Deny+"-unreadable-from-start"] = true
 		}
 	}
 	if st.Rev == prevRev && st.Mt == prevMt {
@@ -175,6 +219,9 @@ func genEdits(t *rapid.T) Case {
 			st.K = 3
 		}
 		st.Rev, st.Mt = s.rev, s.mt
+		if rapid.IntRange(0, 4).Draw(t, "deny") == 0 {
+			st.Deny = rapid.SampledFrom([]string{"page", "page", "all"}).Draw(t, "which-denied")
+		}
 		steps = append(steps, st)
 	}
 	return Case{Mode: "history", Recheck: true, Steps: steps}
